@@ -65,12 +65,18 @@ func (e *env) thorough() bool { return e.tier == "thorough" }
 
 // writeCases writes a Coq case file plus its JSON sidecar (inputs per index, for replays).
 func (e *env) writeCases(name string, header string, coqCases []string, inputs []interface{}) {
+	e.writeCasesFn(name, header, "mismatches", coqCases, inputs)
+}
+
+// writeCasesFn is writeCases with an explicit Coq checking function.
+func (e *env) writeCasesFn(name string, header string, fn string, coqCases []string, inputs []interface{}) {
 	path := filepath.Join(e.out, name+".v")
 	f, err := os.Create(path)
 	check(err)
+	fmt.Fprint(f, "From Coq Require Import NArith.\n")
 	fmt.Fprint(f, header)
 	fmt.Fprintf(f, "\nDefinition cases := %s.\n", coqListNL(coqCases))
-	fmt.Fprint(f, "\nDefinition bad := Eval vm_compute in mismatches cases.\nPrint bad.\n")
+	fmt.Fprintf(f, "\nDefinition bad := Eval vm_compute in %s cases.\nLocal Open Scope N_scope.\nPrint bad.\n", fn)
 	check(f.Close())
 	side, err := json.Marshal(inputs)
 	check(err)
@@ -120,6 +126,7 @@ func main() {
 	}
 	e := &env{tier: *tier, seed: *seed, out: *out, replay: *replay, r: newRng(*seed),
 		m: &meta{Property: cmd, Tier: *tier, Seed: *seed, Distribution: map[string]int{}}}
+	defer cleanupScratch()
 	fn(e)
 	if e.m.Samples == nil {
 		e.m.Samples = []interface{}{}
